@@ -87,6 +87,8 @@ Definition guards0 (b : base) (te : Z * ev) : list rule :=
       | None => [2020]
       | Some p =>
           when (negb (p_i p =? i)) 2021 ++
+          (* a call returns to its caller once *)
+          when (existsb (Z.eqb op) (b_done b)) 2023 ++
           (if (rk <? 10) && negb (p_kind p =? kWatch) then
              match p_applied p with
              | Some (ok, r, v, _) => when (negb ((ok =? rk) && ((r =? rev) || negb (rk =? oOk)) && (negb (p_kind p =? kGet) || negb (rk =? oOk) || (v =? val)))) 2022
@@ -123,7 +125,17 @@ Definition guards0 (b : base) (te : Z * ev) : list rule :=
   | _ => []
   end.
 
-Definition guards (b : base) (te : Z * ev) : list rule := guards0 b te ++ overdue_ticks b (fst te).
+(* rule 2034: once the context passed to Start has been cancelled, the run does not raise the claim any more
+   (an acquisition still in flight may complete; becomeLeader ignores it) *)
+Definition late_claim (b : base) (te : Z * ev) : list rule :=
+  match snd te with
+  | EFlag i fl _ _ _ => when (zb fl && io_cancelled (inst_of b i)) 2034
+  | _ => []
+  end.
+
+(* rule 2000: observations are in time order *)
+Definition guards (b : base) (te : Z * ev) : list rule :=
+  guards0 b te ++ overdue_ticks b (fst te) ++ when (fst te <? b_now b) 2000 ++ late_claim b te.
 
 (* a trace is admitted when every observation satisfies the rules *)
 Fixpoint admits (b : base) (tr : trace) : bool :=
